@@ -77,7 +77,13 @@ def scenUsartDec (hex obs : String) : Verdict :=
         -- C09 decode side: valid COBS encodings of 5..=13 byte bodies decode to the layout's fields, and a
         -- body whose size disagrees with its declared length is rejected
         match m with
-        | .ok _ => .prop "C09" "a valid encoding is not decoded to the fields the layout defines" a
+        | .ok _ =>
+          -- C09's decode side quantifies over the valid COBS encodings: no zero byte, and the encoding of the body it
+          -- decodes to. The pinned streaming decoder also accepts such an encoding behind idle 0x00 bytes; rejecting
+          -- those inputs (or decoding them likewise) is not constrained
+          let valid := bs.all (· != 0) && (match Cobs.decodeBody bs with | some body => Cobs.encode body == bs | none => false)
+          if valid || obs.startsWith "ok(" then .prop "C09" "a valid encoding is not decoded to the fields the layout defines" a
+          else .note "an input that is not a valid COBS encoding (idle zero bytes in front of one) is rejected; the pinned decoder skips them"
         | _ =>
           match Cobs.decodeBody bs with
           | some body =>
@@ -391,9 +397,48 @@ def emissionsOf (obs : String) : List String :=
     let r := (t.splitOn "@").headD ""
     if r == "nothing" then none else some r
 
-/-- C06 on the implementation's own answer: never a panic or a spin, the second probe is delivered last, and
-nothing is delivered that the (provably merge-free) model does not deliver -/
-def rxOracle (implObs modelObs : String) : Option String :=
+/-- the link frames of a byte script, decoded: delimiter, length byte, that many body bytes (non-byte items and line noise
+between frames skipped), as the receivers split the stream -/
+def framesOfBytes (items : List ByteItem) : List (Res FErr Frame) :=
+  let bytes := items.filterMap fun | .byte b => some b | _ => none
+  let rec go (l : List UInt8) (fuel : Nat) (acc : List (Res FErr Frame)) : List (Res FErr Frame) :=
+    match fuel with
+    | 0 => acc.reverse
+    | fuel + 1 =>
+      match l with
+      | [] => acc.reverse
+      | 0 :: len :: t =>
+        if t.length < len.toNat then acc.reverse
+        else go (t.drop len.toNat) fuel (fromUsart (t.take len.toNat) :: acc)
+      | _ :: t => go t fuel acc
+  go bytes (bytes.length + 1) []
+
+/-- the packets a receiver may deliver *intact* out of a frame sequence, whatever its policy towards damaged frames and
+pending packets: for every position, what a fresh receiver that starts there delivers first (undecodable frames in
+between skipped), if it delivers before it reports a reassembly error -/
+def intactCandidates (frames : List (Res FErr Frame)) : List String :=
+  let rec first (st : RxSt) (l : List (Res FErr Frame)) : Option Packet :=
+    match l with
+    | [] => none
+    | .ok f :: t =>
+      match rxStep st f with
+      | (_, some (.packet p)) => some p
+      | (_, some _) => none
+      | (st', none) => first st' t
+    | _ :: t => first st t
+  let rec all (l : List (Res FErr Frame)) (acc : List String) : List String :=
+    match l with
+    | [] => acc
+    | x :: t =>
+      match first none (x :: t) with
+      | some p => all t (showOutShort (.emit (.packet p)) :: acc)
+      | none => all t acc
+  all frames []
+
+/-- C06 on the implementation's own answer: never a panic or a spin, the second probe is delivered last, and nothing is
+delivered altered or merged: every delivered packet is one the (provably merge-free) model delivers, or one a fresh
+receiver would deliver from some position of the frame sequence -/
+def rxOracle (link items : String) (implObs modelObs : String) : Option String :=
   let ie := emissionsOf implObs
   let me := emissionsOf modelObs
   if ie.contains "panic" then some "a poll panicked"
@@ -402,19 +447,53 @@ def rxOracle (implObs modelObs : String) : Option String :=
     let iok := ie.filter (·.startsWith "ok(")
     let mok := me.filter (·.startsWith "ok(")
     if iok.getLast? != mok.getLast? then some "the second probe packet is not the last packet delivered intact"
-    else if iok.any (fun p => !mok.contains p) then some "a packet was delivered that no model run delivers (altered or merged)"
-    else none
+    else
+      let extra := iok.filter fun p => !mok.contains p
+      if extra.isEmpty then none
+      else
+        let frames : List (Res FErr Frame) :=
+          if link == "can" then ((parseCanItems items).getD []).filterMap fun | .frame c => some (fromCan c) | _ => none
+          else framesOfBytes ((parseByteItems items).getD [])
+        let cands := intactCandidates frames
+        if extra.any (fun p => !cands.contains p) then some "a packet was delivered that is not an intact packet of the traffic (altered or merged)"
+        else none
 
 def rxModel (link items : String) : Option String :=
   if link == "can" then (parseCanItems items).map fun s => showTrace (canPollsSt none s)
   else (parseByteItems items).map fun s => showTrace (byteTrace link s)
+
+/-- a CAN controller's overrun report is not a frame and not a "no data yet" answer: no property quantifies over it. The
+pinned receiver ends the poll with "nothing received"; a receiver that reports an error instead (and is otherwise in the
+same state) is read as the model's answer. `res` extracts the `<result>@<left>` part of an entry -/
+def tolerateOverrun (items : String) (modelEntries implEntries : List String) (res : String → String) (put : String → String → String) :
+    List String :=
+  match parseCanItems items with
+  | none => implEntries
+  | some its =>
+    if !its.contains .overrun then implEntries else
+    let n := its.length
+    let leftOf (e : String) : Nat := (((res e).splitOn "@").getD 1 "0").toNat?.getD 0
+    let rec go (ms is : List String) (prevLeft : Nat) (acc : List String) : List String :=
+      match ms, is with
+      | m :: mt, i :: it =>
+        let lastConsumed := its.getD (n - leftOf m - 1) .wouldBlock
+        let i' := if res m != res i && (res m).startsWith "nothing@" && res i == "err@" ++ toString (leftOf m)
+                     && leftOf m < prevLeft && lastConsumed == .overrun then put i (res m) else i
+        go mt it (leftOf m) (i' :: acc)
+      | _, rest => acc.reverse ++ rest
+    go modelEntries implEntries n []
 
 def scenRx (link items obs : String) : Verdict :=
   match rxModel link items with
   | none => .bad "parse"
   | some a =>
     if a == obs then .ok
-    else match rxOracle obs a with
+    else
+      let obs' := if link == "can" then
+          String.intercalate "," (tolerateOverrun items (a.splitOn ",") (obs.splitOn ",") id (fun _ r => r))
+        else obs
+      if a == obs' then .note "a CAN overrun report is answered with an error instead of 'nothing received' (outside every property's quantifier)"
+      else match rxOracle link items obs' a with
       | some clause => .prop "C06" clause a
       | none => .corr a
 
@@ -446,6 +525,11 @@ def scenRxh (link items obs : String) : Verdict :=
           (String.intercalate "/" rrev.reverse, live.toNat?.getD 0, peak.toNat?.getD 0, plen.toNat?.getD 0)
         | _ => (e, 0, 0, 0)
       let a := String.intercalate "," (sts.map (·.1))
+      -- an overrun report answered with an error instead of "nothing received" is read as the model's answer (see `tolerateOverrun`)
+      let parsed := if link == "can" then
+          let fixed := tolerateOverrun items (sts.map (·.1)) (parsed.map (·.1)) id (fun _ r => r)
+          (parsed.zip fixed).map fun ((_, l, pk, pl), r) => (r, l, pk, pl)
+        else parsed
       if String.intercalate "," (parsed.map (·.1)) != a then
         -- the results differ from the model's: the part of C19 that needs no model state is still evaluated on the
         -- implementation's own numbers — right after a delivered packet a receiver holds what a fresh one holds
@@ -453,7 +537,7 @@ def scenRxh (link items obs : String) : Verdict :=
         | some (r, live, _, _) =>
           .prop "C19,C06" s!"receiver holds {live - base} bytes more than a fresh one right after delivering a packet ({r})" a
         | none =>
-          match rxOracle (String.intercalate "," (parsed.map (·.1))) a with
+          match rxOracle link items (String.intercalate "," (parsed.map (·.1))) a with
           | some clause => .prop "C06" clause a
           | none => .corr a
       else
@@ -753,10 +837,17 @@ def scenE2e (toks : List String) (obs : String) : Verdict :=
       let a := UInt16.ofNat an
       let b := UInt16.ofNat bn
       -- the handler table is built by the history `hs`: `c` / `o` register a handler (token = order of registration),
-      -- a digit removes that id
-      let table : Proto := (if hs = "-" then [] else hs.toList).foldl (fun (acc : Proto × Nat) ch =>
-          if ch.isDigit then ((acc.1.remove (ch.toNat - 48)).1, acc.2)
-          else ((acc.1.add ⟨acc.2, ch == 'c', []⟩).1, acc.2 + 1)) (Proto.init b [] [], 0) |>.1
+      -- a digit k removes the k-th registration, with the id it was given, if it exists and is still registered
+      let table : Proto := (if hs = "-" then [] else hs.toList).foldl (fun (acc : Proto × Nat × List (Option Nat)) ch =>
+          let (st, tok, ids) := acc
+          if ch.isDigit then
+            let k := ch.toNat - 48
+            match ids.getD k none with
+            | some id => ((st.remove id).1, tok, ids.set k none)
+            | none => acc
+          else
+            let (st', id) := st.add ⟨tok, ch == 'c', []⟩
+            (st', tok + 1, ids ++ [some id])) (Proto.init b [] [], 0, []) |>.1
       let handlers : List (Nat × Handler) := table.handlers
       -- what node A puts on the link (C16): everything not addressed to itself, and everything if it is the broadcast node
       let sent := (es.map (encode ⟨0, 0, 0⟩)).filter fun p => p.addr != a || a == BROADCAST
@@ -810,28 +901,73 @@ re-entrant `n<token>/…` entry per registered handler (plus the transmission wh
 address) -/
 def canonSeg (blockLen : Nat → Nat) (seg : List String) : List String :=
   -- which transmission met which link answer depends on the invocation order: compare the transmissions without
-  -- their answers inside the blocks, and the sequence of answers separately; runs of consecutive blocks are sorted, and
-  -- inside a block runs of consecutive re-entrant entries
+  -- their answers, and the sequence of answers separately. No property orders the handlers of one packet among each
+  -- other, the sends of one callback among each other, or a local delivery against a transmission that must both
+  -- happen (C16 on a device whose own address is the broadcast address): between two wait marks `w` the canonical form is
+  -- the sorted list of blocks (each: the call, then its entries sorted) followed by the top-level transmissions in order
   let strip (x : String) : String := if x.startsWith "tok/" || x.startsWith "ter/" then "t/" ++ (x.drop 4).toString else x
-  let answers := seg.filterMap fun x => if x.startsWith "tok/" then some "o" else if x.startsWith "ter/" then some "e" else none
+  let sorted (l : List String) : List String := (l.toArray.qsort (· < ·)).toList
+  -- the link's answers, per transmitted packet, as a multiset (the model run follows the implementation in which
+  -- transmission of an operation meets which answer: `followAnswers`)
+  let answers := sorted (seg.filter fun x => x.startsWith "tok/" || x.startsWith "ter/")
   let tokenOf (x : String) : Nat := (((x.drop 1).toString.splitOn "/").headD "").toNat?.getD 0
-  let flush (run : List String) : List String := (run.toArray.qsort (· < ·)).toList
-  let rec sortN (l : List String) (run : List String) (acc : List String) : List String :=
-    match l with
-    | [] => acc ++ flush run
-    | x :: t => if x.startsWith "n" then sortN t (x :: run) acc else sortN t [] (acc ++ flush run ++ [x])
-  let rec go (l : List String) (fuel : Nat) (run : List String) (acc : List String) : List String :=
+  let rec go (l : List String) (fuel : Nat) (blocks tops : List String) (acc : List String) : List String :=
     match fuel with
-    | 0 => acc ++ flush run ++ l
+    | 0 => acc ++ sorted blocks ++ tops.reverse ++ l
     | fuel + 1 =>
       match l with
-      | [] => acc ++ flush run
+      | [] => acc ++ sorted blocks ++ tops.reverse
       | x :: t =>
         if x.startsWith "c" then
           let k := blockLen (tokenOf x)
-          go (t.drop k) fuel ((String.intercalate "," (x :: sortN ((t.take k).map strip) [] [])) :: run) acc
-        else go t fuel [] (acc ++ flush run ++ [strip x])
-  go seg (seg.length + 1) [] [] ++ ["answers:" ++ String.join answers]
+          go (t.drop k) fuel ((String.intercalate "," (x :: sorted ((t.take k).map strip))) :: blocks) tops acc
+        else if x == "w" then go t fuel [] [] (acc ++ sorted blocks ++ tops.reverse ++ ["w"])
+        else go t fuel blocks (strip x :: tops) acc
+  go seg (seg.length + 1) [] [] [] ++ ["answers:" ++ String.intercalate "," answers]
+
+/-- compare an implementation's observation with a model run (results per operation, log, handler counts): attribute the
+first operation whose result, queue position or canonical log segment differs; no difference in canonical form = a note -/
+def judgeProto (addr ops obs : String) (results log : List String) (counts : List Nat) (note : String) : Verdict :=
+  let a := joinOr results ";" ++ " " ++ joinOr log ","
+  -- attribute to the first operation whose result, queue position or log segment differs
+  let opl := sepList ops ";"
+  match obs.splitOn " " with
+  | [ir, il] =>
+    let ires := sepList ir ";"
+    let ilog := sepList il ","
+    let seg (lg : List String) (rs : List String) (i : Nat) : List String :=
+      let endOf (j : Nat) : Nat := (((rs.getD j "").splitOn "#").getD 1 "0").toNat?.getD 0
+      let lo := if i = 0 then 0 else endOf (i - 1)
+      (lg.drop lo).take (endOf i - lo)
+    -- what each handler's callback sends, by token (from the `add` operations): packets to the device itself, others
+    let own := (parseHexNat addr).getD 0
+    let sendsTab : List (Nat × Nat × Nat) := opl.filterMap fun o =>
+      match o.splitOn "/" with
+      | ["add", _, tok, sd] =>
+        let ps := if sd == "-" then [] else (sd.splitOn "+").filterMap parsePacket
+        let loops := (ps.filter fun q => q.addr.toNat == own).length
+        some (tok.toNat?.getD 0, loops, ps.length - loops)
+      | _ => none
+    let blockLen (i : Nat) (t : Nat) : Nat :=
+      match sendsTab.find? (·.1 == t) with
+      | some (_, loops, others) => loops * (counts.getD i 0 + (if own == 0xffff then 1 else 0)) + others
+      | none => 0
+    let firstBad := (List.range opl.length).find? fun i =>
+      ires.getD i "?" != results.getD i "?" ||
+        canonSeg (blockLen i) (seg ilog ires i) != canonSeg (blockLen i) (seg log results i)
+    match firstBad with
+    | some i =>
+      let pid := opProp (opl.getD i "")
+      -- a difference in what the callbacks' own sends cause is a routing matter whatever operation ran the callbacks
+      let nested := (seg ilog ires i).filter (·.startsWith "n") != (seg log results i).filter (·.startsWith "n")
+      let pid := if nested && pid != "C16" then pid ++ ",C16" else pid
+      let extra := if !(pid.startsWith "C17") && (opl.take i).any (fun o => o.startsWith "add" || o.startsWith "rm") then ",~C17" else ""
+      .prop (pid ++ extra) ("operation " ++ toString i ++ " (" ++ ((opl.getD i "").splitOn "/").headD "" ++
+        ") differs from the specified dispatch/routing/registry/exchange behaviour") a
+    | none =>
+      if ires.length == results.length then .note note else
+      .prop "C15,C16,C17,C18" "log differs" a
+  | _ => .bad "observation"
 
 def scenProto (addr rxq txq ops obs : String) : Verdict :=
   match runProtoStepsN addr rxq txq ops with
@@ -840,45 +976,31 @@ def scenProto (addr rxq txq ops obs : String) : Verdict :=
     let a := joinOr results ";" ++ " " ++ joinOr log ","
     if a == obs then .ok
     else
-      -- attribute to the first operation whose result, queue position or log segment differs
+      -- C17 requires a registration to return an id that is not in use, not a particular one: when the implementation
+      -- hands out other ids than the model's allocator, the model is run again with the registrations placed under the
+      -- implementation's ids (so that later `rm/<id>` operations mean the same handler on both sides)
       let opl := sepList ops ";"
-      match obs.splitOn " " with
-      | [ir, il] =>
-        let ires := sepList ir ";"
-        let ilog := sepList il ","
-        let seg (lg : List String) (rs : List String) (i : Nat) : List String :=
-          let endOf (j : Nat) : Nat := (((rs.getD j "").splitOn "#").getD 1 "0").toNat?.getD 0
-          let lo := if i = 0 then 0 else endOf (i - 1)
-          (lg.drop lo).take (endOf i - lo)
-        -- what each handler's callback sends, by token (from the `add` operations): packets to the device itself, others
-        let own := (parseHexNat addr).getD 0
-        let sendsTab : List (Nat × Nat × Nat) := opl.filterMap fun o =>
-          match o.splitOn "/" with
-          | ["add", _, tok, sd] =>
-            let ps := if sd == "-" then [] else (sd.splitOn "+").filterMap parsePacket
-            let loops := (ps.filter fun q => q.addr.toNat == own).length
-            some (tok.toNat?.getD 0, loops, ps.length - loops)
-          | _ => none
-        let blockLen (i : Nat) (t : Nat) : Nat :=
-          match sendsTab.find? (·.1 == t) with
-          | some (_, loops, others) => loops * (counts.getD i 0 + (if own == 0xffff then 1 else 0)) + others
-          | none => 0
-        let firstBad := (List.range opl.length).find? fun i =>
-          ires.getD i "?" != results.getD i "?" ||
-            canonSeg (blockLen i) (seg ilog ires i) != canonSeg (blockLen i) (seg log results i)
-        match firstBad with
-        | some i =>
-          let pid := opProp (opl.getD i "")
-          -- a difference in what the callbacks' own sends cause is a routing matter whatever operation ran the callbacks
-          let nested := (seg ilog ires i).filter (·.startsWith "n") != (seg log results i).filter (·.startsWith "n")
-          let pid := if nested && pid != "C16" then pid ++ ",C16" else pid
-          let extra := if !(pid.startsWith "C17") && (opl.take i).any (fun o => o.startsWith "add" || o.startsWith "rm") then ",~C17" else ""
-          .prop (pid ++ extra) ("operation " ++ toString i ++ " (" ++ ((opl.getD i "").splitOn "/").headD "" ++
-            ") differs from the specified dispatch/routing/registry/exchange behaviour") a
-        | none =>
-          if ires.length == results.length then .note "handlers of one packet invoked in another order" else
-          .prop "C15,C16,C17,C18" "log differs" a
-      | _ => .bad "observation"
+      let ires := sepList ((obs.splitOn " ").headD "") ";"
+      let otherIds := (List.range opl.length).any fun i =>
+        (opl.getD i "").startsWith "add" &&
+          (match implIdOf (ires.getD i ""), implIdOf (results.getD i "") with
+           | some x, some y => x != y
+           | _, _ => false)
+      let ilog := sepList ((obs.splitOn " ").getD 1 "-") ","
+      let note := if otherIds then "handler ids handed out by another allocation policy (each one not in use when handed out, as C17 requires); everything else as specified"
+        else "handlers of one packet invoked, or the transmissions of one operation handed to the link, in another order"
+      let attempt (lastMatch : Bool) : Verdict :=
+        match runProtoStepsIds lastMatch addr rxq txq ops ires ilog with
+        | none => .bad "parse"
+        | some (.error i) =>
+          .prop "C17" ("operation " ++ toString i ++ " (add) returned the id of a handler that is registered") a
+        | some (.ok (results2, log2, counts2)) => judgeProto addr ops obs results2 log2 counts2 note
+      match attempt false with
+      | .prop ids clause ans =>
+        (match attempt true with
+         | .note n => .note n
+         | _ => .prop ids clause ans)
+      | v => v
 
 /-! ## dispatch -/
 
